@@ -81,6 +81,9 @@ pub fn read_server_log(sim: &mut Sim) {
     for (kind, seq, sender, ent) in new {
         *sim.delivered_c.entry(seq).or_default() += 1;
         sim.last_from.insert(sender, seq);
+        if sim.drain_logs {
+            sim.from_log.push((kind, seq, sender));
+        }
         if !sim.or.ev_once {
             continue;
         }
